@@ -187,7 +187,17 @@ func TestVerifC17Child(t *testing.T) {
 	switch role {
 	case "master":
 		var eng atomic.Pointer[Engine]
+		closeAtWrite := int64(c17Env("VERIF_C17_CLOSE_AT_WRITE", 0))
+		closeNow := make(chan struct{}, 1)
 		verifhook.SetObserver(func(name string, n int64) {
+			// graceful-close scenario: start Engine.Close when the binlog writer has just finished its
+			// k-th write and is about to be held up (VERIF_DELAY), i.e. while later appends pile up
+			if closeAtWrite > 0 && name == "fsbinlog.loop.after_write" && n == closeAtWrite {
+				select {
+				case closeNow <- struct{}{}:
+				default:
+				}
+			}
 			if rq := c17CancelAt.Load(); rq != nil && rq.hook == name {
 				c17CancelAt.Store(nil)
 				rq.cancel()
@@ -218,11 +228,13 @@ func TestVerifC17Child(t *testing.T) {
 		closeAfter := int64(c17Env("VERIF_C17_CLOSE_AFTER", 0))
 		var closing atomic.Bool
 		closingCh := make(chan struct{})
-		closeNow := make(chan struct{}, 1)
+		closeLag := time.Duration(c17Env("VERIF_C17_CLOSE_LAG_US", 0)) * time.Microsecond
 		var closeMu sync.Mutex
-		if closeAfter > 0 {
+		var closeOnce sync.Once
+		if closeAfter > 0 || closeAtWrite > 0 {
 			go func() {
 				<-closeNow
+				time.Sleep(closeLag)
 				closeMu.Lock() // never released: the other Close path must not run
 				closing.Store(true)
 				close(closingCh)
@@ -235,6 +247,20 @@ func TestVerifC17Child(t *testing.T) {
 		var acks atomic.Int64
 		stop := make(chan struct{})
 		var stopOnce sync.Once
+		onAck := func() {
+			n := acks.Add(1)
+			if closeAfter > 0 && n >= closeAfter {
+				closeOnce.Do(func() {
+					select {
+					case closeNow <- struct{}{}:
+					default:
+					}
+				})
+			}
+			if n >= quota && closeAfter == 0 && closeAtWrite == 0 {
+				stopOnce.Do(func() { close(stop) })
+			}
+		}
 		var wg sync.WaitGroup
 		for g := 0; g < writers; g++ {
 			wg.Add(1)
@@ -317,7 +343,7 @@ func TestVerifC17Child(t *testing.T) {
 						say("failed %s\n", short)
 					case kind == 4:
 						say("ack %s\n", short)
-						acks.Add(1)
+						onAck()
 					case kind != 0:
 						say("ERR %s failing callback returned nil\n", short)
 						return
@@ -343,13 +369,7 @@ func TestVerifC17Child(t *testing.T) {
 							}
 						}
 						say("ack %s\n", short)
-						n := acks.Add(1)
-						if closeAfter > 0 && n == closeAfter {
-							closeNow <- struct{}{}
-						}
-						if n >= quota && closeAfter == 0 {
-							stopOnce.Do(func() { close(stop) })
-						}
+						onAck()
 					}
 					if rng.IntN(20) == 0 {
 						time.Sleep(time.Duration(rng.IntN(1500)) * time.Microsecond)
